@@ -681,6 +681,33 @@ def sets_flag(rel, tree, qual, flag):
     return any(ast.unparse(x) == "self.%s = True" % flag for x in stmts(fn))
 
 
+ATTR_FUNCS = ("cotangent", "angle_defects", "corner_angles", "vertex_normals", "attributes.cotangent", "attributes.angle_defects",
+              "attributes.corner_angles", "attributes.vertex_normals", "face_normals", "attributes.face_normals", "face_area",
+              "attributes.face_area", "mean_edge_length", "attributes.parallel_transport_curvature")
+
+
+def cached_calls(rel, tree, src, qual, parts):
+    """the attribute computations of `_initialize_attributes` that are stored on the mesh (persistent is not False)"""
+    fn = T.find_def(tree, qual, rel)
+    parts.append((qual, T.sha(src, fn)))
+    out = []
+    for node in ast.walk(fn):
+        if isinstance(node, ast.Call) and T.dotted(node.func) in ATTR_FUNCS:
+            kw = {k.arg: k.value for k in node.keywords}
+            pers = kw.get("persistent")
+            if pers is None:
+                cached = True
+            elif isinstance(pers, ast.Constant) and isinstance(pers.value, bool):
+                cached = pers.value
+            else:
+                T.fail(rel, node, "persistent= is not a literal")
+            if cached:
+                out.append(T.dotted(node.func).split(".")[-1])
+        elif isinstance(node, ast.Call) and (T.dotted(node.func) or "").endswith("create_attribute"):
+            out.append("create_attribute:" + ast.unparse(node.args[0]) if node.args else "create_attribute")
+    return out
+
+
 def gen_base(parts):
     src, tree = T.load(BASE)
     rn = T.find_def(tree, "FrameField.run", BASE)
@@ -701,6 +728,15 @@ def gen_base(parts):
         "optf_sets_smoothed": sets_flag(FACES, ftree, "FrameField2DFaces.optimize", "smoothed"),
         "optv_sets_smoothed": sets_flag(VERTS, vtree, "FrameField2DVertices.optimize", "smoothed"),
     }
+    cf = cached_calls(FACES, ftree, fsrc, "_BaseFrameField2DFaces._initialize_attributes", parts)
+    cv = cached_calls(VERTS, vtree, vsrc, "_BaseFrameField2DVertices._initialize_attributes", parts)
+
+    def slist(l):
+        return "[" + "; ".join('"%s"%%string' % x.replace('"', "'") for x in l) + "]"
+    CACHE_DEFS.append("\n".join([
+        "(* ---- faces2d.py / vertex2d.py: _initialize_attributes - the attribute computations it leaves cached on the mesh *)",
+        "Definition initf_cached : list string := %s." % slist(cf),
+        "Definition initv_cached : list string := %s." % slist(cv)]))
     run_defs = ["(* ---- base.py: FrameField.run (which stage is called under which flag); worker.py: __call__ = run *)",
                 "Definition run_step (st : ffstate) : ffstate := %s." % run_txt] + \
                ["Definition %s : bool := %s." % (k, "true" if v else "false") for k, v in sorted(flags.items())]
@@ -723,7 +759,7 @@ def gen_base(parts):
         T.fail(BASE, st, "expected `if abs(self.var[i]) > thr: self.var[i] /= abs(self.var[i])`")
     tn, op = cmp_guard(BASE, st.test, "abs(self.var[%s])" % i)
     thr = const_fraction(BASE, tn)
-    return RUN_DEFS.pop() + "\n\n" + "\n".join([
+    return RUN_DEFS.pop() + "\n\n" + CACHE_DEFS.pop() + "\n\n" + "\n".join([
         "(* ---- base.py: FrameField.normalize *)",
         "Definition norm_thr : Q := %s." % qlit(thr),
         "Definition norm_guard (a : T) : bool := %s." % guard_text(op, "norm_thr", "a"),
@@ -903,8 +939,9 @@ def gen_laplacians(parts):
 
 
 RUN_DEFS = []
+CACHE_DEFS = []
 
-PRELUDE = """From Coq Require Import ZArith List Bool QArith.
+PRELUDE = """From Coq Require Import ZArith List Bool QArith String.
 Import ListNotations.
 Require Import MV.Lib.Base MV.C18.Ops.
 Open Scope Z_scope.
